@@ -17,76 +17,58 @@ func init() {
 	Registry["C06"] = Check{Level: "model_checking", Run: runC06, Replay: replayC06}
 }
 
-// runHistory replays ops on a fresh real emitter and model, checking after every call that the
-// outcome (accepted / refused) and the observable state agree. Returns the emitter, the model and
-// the first disagreement.
-func runHistory(v asmVariant, capacity int, ops []asmOp) (*asm.Emitter, *asmModel, string) {
-	return runHistoryShape(v, capacity, ops, false)
-}
-
-// runHistoryShape: window=true hands the emitter a sub-slice of a larger array (len < cap) with
-// canaries around it; the emitter's capacity is the length of what it was given.
-func runHistoryShape(v asmVariant, capacity int, ops []asmOp, window bool) (*asm.Emitter, *asmModel, string) {
-	var e *asm.Emitter
-	var g *asmGuard
-	if window && capacity >= 0 {
-		e, g = newRealEmitterWindow(v, capacity)
-	} else {
-		e = newRealEmitter(v, capacity)
-	}
-	m := newModelFor(v, capacity)
+// c06Steps applies the calls to the real emitter, recording what it did (observeStep), under C06's own
+// per-call rule: a label can be defined once -- the first definition is accepted, a second one is
+// refused and changes nothing. Whether other calls are accepted is not C06's business.
+func c06Steps(e *asm.Emitter, om *asmModel, ops []asmOp, first int) string {
 	for i, op := range ops {
-		before := observe(e, asmLabelNames)
-		refused := op.model(m)
-		pn := applyReal(e, op)
-		after := observe(e, asmLabelNames)
-		if refused != (pn != nil) {
-			return e, m, fmt.Sprintf("call #%d %s: model says refused=%v, emitter panicked=%v (%v)", i, op.name, refused, pn != nil, pn)
+		var before asmObs
+		defined := false
+		if op.kind == itLabel {
+			_, defined = om.labels[op.text]
+			before = observe(e, asmLabelNames)
 		}
-		if refused && !after.equal(before) {
-			return e, m, fmt.Sprintf("call #%d %s was refused (%v) but changed the emitter: before %v after %v", i, op.name, pn, before, after)
+		pn := observeStep(e, om, op)
+		if op.kind != itLabel {
+			continue
 		}
-		if d := after.matchesModel(m); d != "" {
-			return e, m, fmt.Sprintf("after call #%d %s: %s", i, op.name, d)
-		}
-		if d := g.intact(); d != "" {
-			return e, m, fmt.Sprintf("call #%d %s wrote outside the target buffer: %s", i, op.name, d)
+		switch {
+		case defined && pn == nil:
+			return fmt.Sprintf("call #%d %s: the label is already defined at $%06x, a second definition must be refused", first+i, op.name, om.labels[op.text])
+		case !defined && pn != nil:
+			return fmt.Sprintf("call #%d %s: the first definition of the label was refused: %v", first+i, op.name, pn)
+		case pn != nil && !observe(e, asmLabelNames).equal(before):
+			return fmt.Sprintf("call #%d %s was refused (%v) but changed the emitter", first+i, op.name, pn)
 		}
 	}
-	return e, m, ""
+	return ""
 }
 
-// runHistoryWithMidFinalize is runHistory with one successful Finalize inserted after the first k
-// calls: references added after a Finalize must still be resolved by the next one, and a Finalize
-// in the middle must not disturb later emission. Returns skipped=true when the model says the
-// inserted Finalize would fail (the emitter's state after a failed Finalize depends on map order).
-func runHistoryWithMidFinalize(v asmVariant, capacity int, ops []asmOp, k int) (e *asm.Emitter, m *asmModel, diff string, skipped bool) {
-	e = newRealEmitter(v, capacity)
-	m = newModelFor(v, capacity)
-	step := func(i int, op asmOp) string {
-		before := observe(e, asmLabelNames)
-		refused := op.model(m)
-		pn := applyReal(e, op)
-		after := observe(e, asmLabelNames)
-		if refused != (pn != nil) {
-			return fmt.Sprintf("call #%d %s: model says refused=%v, emitter panicked=%v (%v)", i, op.name, refused, pn != nil, pn)
-		}
-		if refused && !after.equal(before) {
-			return fmt.Sprintf("call #%d %s was refused (%v) but changed the emitter", i, op.name, pn)
-		}
-		if d := after.matchesModel(m); d != "" {
-			return fmt.Sprintf("after call #%d %s: %s", i, op.name, d)
-		}
-		return ""
+// c06History: the calls on a fresh real emitter, then Finalize twice against the resolution computed
+// from what the emitter itself built (positions of labels and of reference operands in Bytes()).
+func c06History(v asmVariant, capacity int, ops []asmOp) string {
+	e := newRealEmitter(v, capacity)
+	om := newModelFor(v, capacity)
+	if d := c06Steps(e, om, ops, 0); d != "" {
+		return d
 	}
-	for i, op := range ops[:k] {
-		if d := step(i, op); d != "" {
-			return e, m, d, false
-		}
+	return checkFinalize(e, om)
+}
+
+// c06HistoryMidFinalize is c06History with one successful Finalize inserted after the first k calls:
+// references added after a Finalize must still be resolved by the next one, and a Finalize in the
+// middle must not disturb later emission. skipped=true when the inserted Finalize has to fail (the
+// emitter's state after a failed Finalize depends on map order).
+func c06HistoryMidFinalize(v asmVariant, capacity int, ops []asmOp, k int) (diff string, skipped bool) {
+	e := newRealEmitter(v, capacity)
+	om := newModelFor(v, capacity)
+	if d := c06Steps(e, om, ops[:k], 0); d != "" {
+		return d, false
 	}
-	f := m.finalize()
+	om.bytes = append(om.bytes[:0], e.Bytes()...)
+	f := om.finalize()
 	if !f.ok {
-		return e, m, "", true
+		return "", true
 	}
 	var err error
 	var pn interface{}
@@ -95,19 +77,20 @@ func runHistoryWithMidFinalize(v asmVariant, capacity int, ops []asmOp, k int) (
 		err = e.Finalize()
 	}()
 	if pn != nil || err != nil {
-		return e, m, fmt.Sprintf("Finalize after call #%d: err=%v panic=%v, model expects success", k-1, err, pn), false
+		return fmt.Sprintf("Finalize after call #%d: err=%v panic=%v, but every reference is resolvable and in range", k-1, err, pn), false
 	}
-	m.bytes = f.patched
-	m.refs = nil
-	if d := observe(e, asmLabelNames).matchesModel(m); d != "" {
-		return e, m, fmt.Sprintf("after the Finalize following call #%d: %s", k-1, d), false
+	if !bytes.Equal(e.Bytes(), f.patched) {
+		return fmt.Sprintf("after the Finalize following call #%d bytes are % x, want % x", k-1, e.Bytes(), f.patched), false
 	}
-	for i, op := range ops[k:] {
-		if d := step(k+i, op); d != "" {
-			return e, m, "(after a Finalize following call #" + fmt.Sprint(k-1) + ") " + d, false
-		}
+	om.bytes = f.patched
+	om.refs = nil
+	if d := c06Steps(e, om, ops[k:], k); d != "" {
+		return "(after a Finalize following call #" + fmt.Sprint(k-1) + ") " + d, false
 	}
-	return e, m, "", false
+	if d := checkFinalize(e, om); d != "" {
+		return "(after a Finalize following call #" + fmt.Sprint(k-1) + ") " + d, false
+	}
+	return "", false
 }
 
 // errNamesLegitimately: does the Finalize error text name something that really is wrong?
@@ -135,8 +118,10 @@ func errNamesRange(err error, f asmFinal, m *asmModel) bool {
 
 // checkFinalize runs Finalize (twice) on e and compares with the model's resolution.
 func checkFinalize(e *asm.Emitter, m *asmModel) string {
-	f := m.finalize()
 	emitted := append([]byte(nil), e.Bytes()...)
+	m.bytes = append([]byte(nil), emitted...)
+	f := m.finalize()
+	pre := observe(e, nil)
 	for round := 1; round <= 2; round++ {
 		var err error
 		var pn interface{}
@@ -174,7 +159,7 @@ func checkFinalize(e *asm.Emitter, m *asmModel) string {
 				}
 			}
 		}
-		if d := observe(e, asmLabelNames); d.pc != m.pc || d.flags != m.p {
+		if d := observe(e, nil); d.pc != pre.pc || d.flags != pre.flags {
 			return fmt.Sprintf("Finalize #%d changed PC/flags", round)
 		}
 	}
@@ -186,12 +171,15 @@ func c06Run(h asmHistory) (sig, what string) {
 	if err != nil {
 		return "bad-case", err.Error()
 	}
-	e, m, d := runHistory(h.Variant, h.Capacity, ops)
-	if d == "" {
-		d = checkFinalize(e, m)
-	}
-	if d != "" {
+	if d := c06History(h.Variant, h.Capacity, ops); d != "" {
 		return "unexplained:finalize", fmt.Sprintf("%+v %v: %s", h.Variant, h.Ops, d)
+	}
+	if !h.Variant.Listing {
+		for k := 1; k < len(ops); k++ {
+			if d, skipped := c06HistoryMidFinalize(h.Variant, h.Capacity, ops, k); !skipped && d != "" {
+				return "unexplained:finalize-mid-history", fmt.Sprintf("%+v %v with Finalize after call #%d: %s", h.Variant, h.Ops, k-1, d)
+			}
+		}
 	}
 	return "", ""
 }
@@ -228,16 +216,19 @@ func c06DistRun(c c06Dist) (sig, what string) {
 	func() {
 		defer func() { pn = recover() }()
 		pad := func(n int) {
+			lb := e.Len()
 			e.EmitBytes(dataBlock(n))
-			m.emit(itData, dataBlock(n), -1)
+			m.record(itData, "", "", false, lb, e)
 		}
 		ref := func(l string) {
+			lb := e.Len()
 			br.call(e, l)
-			m.emitRef(br.op, br.s8, l)
+			m.record(itInstr, "", l, br.s8, lb, e)
 		}
 		label := func(l string) {
+			lb := e.Len()
 			e.Label(l)
-			m.label(l)
+			m.record(itLabel, l, "", false, lb, e)
 		}
 		ilen := 2
 		if !br.s8 {
@@ -268,15 +259,13 @@ func c06DistRun(c c06Dist) (sig, what string) {
 		case "out-of-range":
 			label("far")
 			pad(200)
+			lb := e.Len()
 			e.BNE("far")
-			m.emitRef(0xD0, true, "far")
+			m.record(itInstr, "", "far", true, lb, e)
 		}
 	}()
 	if pn != nil {
 		return "unexplained:distance-sweep", fmt.Sprintf("%+v: building the program panicked: %v", c, pn)
-	}
-	if d := observe(e, []string{"t", "far"}); d.pc != m.pc || !bytes.Equal(d.bytes, m.bytes) {
-		return "unexplained:distance-sweep", fmt.Sprintf("%+v: emitted bytes/PC differ from the model before Finalize", c)
 	}
 	if d := checkFinalize(e, m); d != "" {
 		return "unexplained:distance-sweep", fmt.Sprintf("%+v: %s", c, d)
@@ -370,25 +359,18 @@ func runC06(r *report.Run) {
 		for i, k := range idx {
 			ops[i] = al[k]
 		}
-		e, m, d := runHistory(v, 256, ops)
-		if d == "" {
-			d = checkFinalize(e, m)
-		}
-		if d != "" {
+		if d := c06History(v, 256, ops); d != "" {
 			return "unexplained:finalize", fmt.Sprintf("%+v %v: %s", v, historyNames(al, idx), d), 1, nil
 		}
 		n := 1
 		if !v.Listing {
 			// the same history with a (successful) Finalize inserted after each proper prefix
 			for k := 1; k < len(ops); k++ {
-				e2, m2, d2, skipped := runHistoryWithMidFinalize(v, 256, ops, k)
+				d2, skipped := c06HistoryMidFinalize(v, 256, ops, k)
 				if skipped {
 					continue
 				}
 				n++
-				if d2 == "" {
-					d2 = checkFinalize(e2, m2)
-				}
 				if d2 != "" {
 					return "unexplained:finalize-mid-history", fmt.Sprintf("%+v %v with Finalize after call #%d: %s", v, historyNames(al, idx), k-1, d2), n, nil
 				}
@@ -435,7 +417,7 @@ func runC06(r *report.Run) {
 	r.Set("histories", hist)
 	r.Set("distance_cases", nd)
 	r.Set("bounds", map[string]interface{}{"history_depth": depth, "alphabet": len(asmAlphabet()), "constructor_variants": len(variants), "distances": fmt.Sprintf("[-%d,%d]", lim, lim), "branches": len(c06Branches)})
-	r.Set("rule", "every sequence of emitter calls up to the depth over the 25-symbol alphabet under every constructor variant (listing on/off x base unset/$000000/$008000/$7E2000/$FF8000): each call is executed on a fresh real Emitter and on the reference model (outcome and Bytes/Len/PC/Flags/GetLabel compared after every call), then Finalize twice against the model's resolution; plus every branch distance in the stated range for each label-taking method, forward and backward, 1-3 references, with and without an additional unresolved or out-of-range reference. states = histories (each reaches one model state), transitions = calls executed")
+	r.Set("rule", "every sequence of emitter calls up to the depth over the 25-symbol alphabet under every constructor variant (listing on/off x base unset/$000000/$008000/$7E2000/$FF8000): each call is executed on a fresh real Emitter and what the emitter did is recorded (accepted or not, the bytes it appended and their offset in Bytes()); a label may be defined once (a second definition must be refused without effect); then Finalize twice against the resolution computed from those positions (which references are resolvable and in range, the operand values, no other byte changed); with listing off also with a successful Finalize inserted after every proper prefix; plus every branch distance in the stated range for each label-taking method, forward and backward, 1-3 references, with and without an additional unresolved or out-of-range reference. states = histories (each reaches one model state), transitions = calls executed")
 	r.Sample(asmHistory{Variant: variants[2], Ops: []string{"BNE(a)", "EmitBytes(33)", "Label(a)", "JMP_abs(b)"}, Capacity: 256})
 	r.Sample(c06Dist{variants[0], "BNE", -128, 2, "unresolved"})
 	r.Assume("Go map iteration order in Finalize is not controlled; the oracle accepts exactly the union of outcomes over all orders (any legitimately unresolved/out-of-range reference may be named, operand bytes may be patched or not on failure)")
